@@ -13,7 +13,7 @@ theorem toBE_length : ∀ (w n : Nat), (toBE w n).length = w
   | 0, _ => rfl
   | w + 1, n => by simp [toBE, toBE_length w]
 
-theorem beNat_foldl (bs : Bytes) (acc : Nat) :
+theorem beNat_foldl_a1 (bs : Bytes) (acc : Nat) :
     bs.foldl (fun acc b => acc * 256 + b.toNat) acc = acc * 256 ^ bs.length + beNat bs := by
   induction bs generalizing acc with
   | nil => simp [beNat]
@@ -28,7 +28,7 @@ theorem beNat_nil : beNat [] = 0 := rfl
 
 theorem beNat_append (a b : Bytes) : beNat (a ++ b) = beNat a * 256 ^ b.length + beNat b := by
   unfold beNat
-  rw [List.foldl_append, beNat_foldl]
+  rw [List.foldl_append, beNat_foldl_a1]
   rfl
 
 theorem beNat_singleton (b : UInt8) : beNat [b] = b.toNat := by simp [beNat]
@@ -36,7 +36,7 @@ theorem beNat_singleton (b : UInt8) : beNat [b] = b.toNat := by simp [beNat]
 theorem beNat_concat (a : Bytes) (b : UInt8) : beNat (a ++ [b]) = beNat a * 256 + b.toNat := by
   rw [beNat_append, beNat_singleton]; simp
 
-theorem beNat_lt (bs : Bytes) : beNat bs < 256 ^ bs.length := by
+theorem beNat_lt_a1 (bs : Bytes) : beNat bs < 256 ^ bs.length := by
   induction bs with
   | nil => simp [beNat]
   | cons b bs ih =>
@@ -509,7 +509,7 @@ theorem parseLayout_protoLinked (proto : Nat → Nat) (lay : Layout) (hl : lay.p
   simp only [Layout.get, hjt, hjn]
   refine ⟨by rw [h1, h3], ?_⟩
   rw [h2]
-  have := beNat_lt ((i.drop (Layout.wireLen (lay.take jn))).take 1)
+  have := beNat_lt_a1 ((i.drop (Layout.wireLen (lay.take jn))).take 1)
   have hle : ((i.drop (Layout.wireLen (lay.take jn))).take 1).length ≤ 1 := by
     rw [List.length_take]; omega
   have : (256 : Nat) ^ ((i.drop (Layout.wireLen (lay.take jn))).take 1).length ≤ 256 ^ 1 :=
@@ -1108,7 +1108,7 @@ theorem parseIpfix_ok_is_ipfix (c : Config) (st st' : PState) (i : Bytes) (p : P
         | overflow => simp [hs] at h
 
 /-- the version-specific step returned `pkt`: which arm ran -/
-theorem parseVersioned_ok_inv (c : Config) (st st' : PState) (kind : Nat) (body : Bytes) (pkt : Packet) (rest : Bytes)
+theorem parseVersioned_ok_inv_a1 (c : Config) (st st' : PState) (kind : Nat) (body : Bytes) (pkt : Packet) (rest : Bytes)
     (hp : parseVersioned c st kind body = (st', .ok pkt rest)) :
     (kind = 5 ∧ st' = st ∧ ∃ h rs, pkt = .v5 h rs ∧ parseFixed c c.t.v5Hdr c.t.v5Rec body = some ((h, rs), rest)) ∨
     (kind = 7 ∧ st' = st ∧ ∃ h rs, pkt = .v7 h rs ∧ parseFixed c c.t.v7Hdr c.t.v7Rec body = some ((h, rs), rest)) ∨
@@ -1214,7 +1214,7 @@ theorem wfFields_of_parseFields (proto : Nat → Nat) :
         obtain ⟨hwl, hv, _⟩ := beU_some hb
         refine key v r1 h ?_
         simp only [hk, decide_eq_true_eq]
-        have := beNat_lt (i.take w)
+        have := beNat_lt_a1 (i.take w)
         rw [List.length_take, Nat.min_eq_left hwl] at this
         rw [hv]; exact this
     | const v =>
